@@ -83,8 +83,15 @@ GRID = expectations()
 _EXPECTED = {(repr(list(f)), s): e for f, s, e in GRID}
 
 
+# who consumes the received UPDATEs decides how much of them exabgp decodes (Protocol.read_message): the default neighbor of the grid
+# hands parsed updates to a process and keeps an Adj-RIB-In; this one keeps no Adj-RIB-In and its process asks for parsed messages
+# but not for updates. An error in an UPDATE is an error all the same
+WATCHER = {'extra': 'adj-rib-in false;', 'api_receive': ['parsed', 'notification', 'open']}
+
+
 def fixed_cases() -> list:
     out = [{'fault': f, 'state': s, 'pre': [], 'grid': i} for i, (f, s, _) in enumerate(GRID)]
+    out += [{'fault': f, 'state': s, 'pre': [], 'grid': i, 'neighbor': 'watcher'} for i, (f, s, _) in enumerate(GRID) if s == 'ESTABLISHED' and f[0] == 'fault' and (f[1] in sc.UPDATE_FAULTS or f[1] in sc.UPDATE_SOFT_FAULTS)]
     # the OPEN faults once more under a local hold time of 0 (legal: no keepalives) - what is refused must not depend on it
     out += [{'fault': f, 'state': s, 'pre': [], 'grid': i, 'local_hold': 0} for i, (f, s, _) in enumerate(GRID) if f[0] == 'open' and s == 'OPENSENT']
     return out
@@ -101,6 +108,8 @@ def cases(draw):
     case = {'fault': f, 'state': s, 'pre': [list(p) for p in pre], 'grid': i, 'split': draw(st.sampled_from([0, 0, 1, 7, 19]))}
     if f[0] == 'open' and s == 'OPENSENT':
         case['local_hold'] = draw(st.sampled_from([30, 0, 3, 180]))
+    if s.startswith('ESTABLISHED') and f[0] == 'fault' and draw(st.integers(0, 3)) == 0:
+        case['neighbor'] = 'watcher'
     return case
 
 
@@ -114,7 +123,8 @@ def check(case: dict) -> dict:
 
     async def main(loop):
         routes = [f'route 40.{i // 250}.{i % 250}.0/24 next-hop 1.2.3.4 med {i % 7}' for i in range(400)] if state == 'ESTABLISHED-BATCH' else ['route 40.0.0.0/24 next-hop 1.2.3.4']
-        text = sc.config(hold=case.get('local_hold', 30), routes=routes)
+        watcher = WATCHER if case.get('neighbor') == 'watcher' else {}
+        text = sc.config(hold=case.get('local_hold', 30), routes=routes, extra=watcher.get('extra', ''), api_receive=watcher.get('api_receive'))
         with nh.Harness(loop, config_text=text, env={'bgp.openwait': 12}) as hn:
             if not hn.reload_ok:
                 raise RuntimeError(f'configuration refused: {hn.reactor.configuration.error}')
@@ -203,6 +213,8 @@ def check(case: dict) -> dict:
         classes.append('fault-split-over-two-writes')
     if 'local_hold' in case:
         classes.append(f'local-hold-time:{case["local_hold"]}')
+    if case.get('neighbor'):
+        classes.append(f'neighbor:{case["neighbor"]}')
     return {'nontrivial': True, 'classes': classes}
 
 
